@@ -41,6 +41,8 @@ def run(chk):
     rule_K4(chk, chk.prog, cached_functions(chk.prog))
 
 MUTANTS = [
+    ('break lost one level of indentation', 'yastn/tensor/oe_blocksparse.py', '                    output_unroll_info[out_ax] = (u, full_leg)\n                    break\n', '                    output_unroll_info[out_ax] = (u, full_leg)\n            break\n', 'U9'),
+    ('kernel rebuilt from another kernel', 'yastn/tensor/_control_lru.py', '    _contractions._meta_tensordot_nf = lru_cache(maxsize)(_contractions._meta_tensordot_nf.__wrapped__)', '    _contractions._meta_tensordot_nf = lru_cache(maxsize)(_contractions._meta_tensordot_fc.__wrapped__)', 'K4'),
     ('diag keeps the pending permutation', 'yastn/tensor/_single.py', '    return a._replace(struct=struct, slices=slices, data=data, hfs=hfs, trans=None)\n\n\ndef remove_zero_blocks', '    return a._replace(struct=struct, slices=slices, data=data, hfs=hfs)\n\n\ndef remove_zero_blocks', 'I2'),
     ("block subset applied to charges and shapes but not to data slices", "yastn/tensor/_merging.py", "        sl_old = [slices[ii] for ii in inds]\n        struct = struct._replace(t=t_old, D=D_old)", "        sl_old = slices\n        struct = struct._replace(t=t_old, D=D_old)", "I6"),
     ("no-fusion kernel: slices of a not narrowed to contracted blocks", "yastn/tensor/_contractions.py", "    slices_a = [sl.slcs[0] for sl in slices_a] if ind_a is None else [slices_a[ii].slcs[0] for ii in ind_a]", "    slices_a = [sl.slcs[0] for sl in slices_a]", "I6"),
